@@ -5,6 +5,8 @@
 //!           F <backend> <n> <syms…>   fresh `stripe(..)` (or `to_striped()` for disp-*) replacing the buffer
 //!           W <m>                     configure_wrap(m)
 //!           G <M>                     configure(&pssm) with a scoring matrix of M rows
+//!           CL                        buffer = buffer.clone()
+//!           CF <n> <syms…> <m>        dst = stripe(syms) configured with m look-ahead rows; dst.clone_from(&buffer); buffer = dst
 //!         backend: generic | avx2 | disp-generic | disp-sse2 | disp-avx2   (non-generic only for C = 32)
 //! answer: after every op  "<rows> <len> <wrap> <hash cells> <hash index(i) i<len> <count_symbols> / <count_symbol each>[ [cells]]", joined by " ; "
 use crate::out::*;
@@ -165,6 +167,25 @@ fn run_ops<A: Alphabet, C: StrictlyPositive + ArrayLength, S: StripeWith<A, C>>(
                 cur = idx;
                 w = 0;
                 i += 3 + n;
+            }
+            "CF" | "CL" => {
+                // the buffer continues as a copy: `CL` = st.clone(); `CF n syms m` = a destination
+                // striped from other symbols and configured with `m` look-ahead rows, then
+                // `dst.clone_from(&st)` — length, wrap and every cell must be those of `st`
+                if op == "CL" {
+                    st = st.clone();
+                    i += 1;
+                } else {
+                    let n: usize = ops[i + 1].parse().unwrap();
+                    let idx: Vec<usize> = ops[i + 2..i + 2 + n].iter().map(|x| x.parse().unwrap()).collect();
+                    let m: usize = ops[i + 2 + n].parse().unwrap();
+                    let syms: Vec<A::Symbol> = idx.iter().map(|&k| A::symbols()[k]).collect();
+                    let mut dst = S::fresh("generic", &syms);
+                    dst.configure_wrap(m);
+                    dst.clone_from(&st);
+                    st = dst;
+                    i += 3 + n;
+                }
             }
             "W" => {
                 let m: usize = ops[i + 1].parse().unwrap();
@@ -364,8 +385,15 @@ pub fn generate(cfg: &Cfg) -> Vec<String> {
                     let b = if c == 32 { *rng.pick(&backends32) } else { "generic" };
                     line.push_str(&format!(" {} {} {}", if rng.chance(1, 3) { "F" } else { "S" }, b, seq(&mut rng, k, l)));
                     have = true;
-                } else if r < 8 {
+                } else if r < 7 {
                     line.push_str(&format!(" W {}", if rng.chance(1, 5) { rng.range(0, 300) } else { rng.range(0, 20) }));
+                } else if r < 8 {
+                    if rng.chance(1, 2) {
+                        line.push_str(" CL");
+                    } else {
+                        let l = rng.range(0, 90);
+                        line.push_str(&format!(" CF {} {}", seq(&mut rng, k, l), rng.range(0, 12)));
+                    }
                 } else {
                     line.push_str(&format!(" G {}", rng.range(0, 25)));
                 }
